@@ -258,9 +258,10 @@ Inductive query_ :=
 | QIntroFields (t : name) (incl_dep : bool)
 | QIntroInterfaces (t : name)
 | QIntroPossible (t : name)
-| QIntroEnumValues (t : name) (incl_dep : bool)
-| QIntroInputFields (t : name)
-| QIntroDirectives.
+| QEnumValues (t : name) (incl_dep : bool)  (* t.Values of an enum type: value validation, result coercion, enumValues *)
+| QInputFields (t : name)                  (* t.Fields of an input object type: value validation, coercion, inputFields *)
+| QDirectives                              (* __schema.directives *)
+| QDirective (n : name).                   (* Schema.Directives()[n]: validator and executor *)
 
 Inductive answer :=
 | AHandle (h : option name)             (* a pointer to a named type of this schema, or nil *)
@@ -353,30 +354,46 @@ Definition ask (fx : fixes) (S : schema) (F : features) (q : query_) : answer :=
       | Some (NUnion ms _) => ANames (Some (if fx_intro fx then ptrs_within S F ms else ms))
       | _ => ANames None
       end
-  | QIntroEnumValues t incl =>
+  | QEnumValues t incl =>
       match lookup S t with
       | Some (NEnum vs _) => ANames (Some (map fst (filter (fun v => negb (snd v) || incl) vs)))
       | _ => ANames None
       end
-  | QIntroInputFields t =>
+  | QInputFields t =>
       match lookup S t with
       | Some (NInput fs _) => AInputs (Some fs)
       | _ => AInputs None
       end
-  | QIntroDirectives => ADirs (directives S)
+  | QDirectives => ADirs (directives S)
+  | QDirective n => ADirs (match assoc n (directives S) with Some a => [(n, a)] | None => [] end)
   end.
 
 (** the three views named in the design: which lookups each consumer uses *)
 Definition in_view_validator (q : query_) : bool :=
-  match q with QRoot _ | QNamedV _ | QKind _ | QField _ _ | QPossibleV _ => true | _ => false end.
+  match q with
+  | QRoot _ | QNamedV _ | QKind _ | QField _ _ | QPossibleV _ | QEnumValues _ _ | QInputFields _ | QDirective _ => true
+  | _ => false
+  end.
 Definition in_view_executor (q : query_) : bool :=
-  match q with QRoot _ | QNamedE _ | QKind _ | QField _ _ | QImpls _ | QApplies _ _ => true | _ => false end.
+  match q with
+  | QRoot _ | QNamedE _ | QKind _ | QField _ _ | QImpls _ | QApplies _ _ | QEnumValues _ _ | QInputFields _
+  | QDirective _ => true
+  | _ => false
+  end.
 Definition in_view_introspection (q : query_) : bool :=
   match q with
   | QRoot _ | QKind _ | QIntroTypes | QIntroType _ | QIntroFields _ _ | QIntroInterfaces _ | QIntroPossible _
-  | QIntroEnumValues _ _ | QIntroInputFields _ | QIntroDirectives => true
+  | QEnumValues _ _ | QInputFields _ | QDirectives => true
   | _ => false
   end.
+
+(** the view of each consumer as a partial function: the lookups it makes *)
+Definition view_validator (fx : fixes) (S : schema) (F : features) (q : query_) : option answer :=
+  if in_view_validator q then Some (ask fx S F q) else None.
+Definition view_executor (fx : fixes) (S : schema) (F : features) (q : query_) : option answer :=
+  if in_view_executor q then Some (ask fx S F q) else None.
+Definition view_introspection (fx : fixes) (S : schema) (F : features) (q : query_) : option answer :=
+  if in_view_introspection q then Some (ask fx S F q) else None.
 
 (** ** Consumers: programs that see a schema only through [ask]
 
@@ -391,7 +408,7 @@ Definition handle_args (q : query_) : list name :=
   match q with
   | QNamedE n => [n]
   | QKind t | QField t _ | QPossibleV t | QImpls t | QIntroFields t _ | QIntroInterfaces t
-  | QIntroPossible t | QIntroEnumValues t _ | QIntroInputFields t => [t]
+  | QIntroPossible t | QEnumValues t _ | QInputFields t => [t]
   | QApplies o t => [o; t]
   | _ => []
   end.
@@ -412,7 +429,7 @@ Definition handles_in (a : answer) : list name :=
 
 (** enum value names are not type pointers *)
 Definition handles_of (q : query_) (a : answer) : list name :=
-  match q with QIntroEnumValues _ _ => [] | _ => handles_in a end.
+  match q with QEnumValues _ _ => [] | _ => handles_in a end.
 
 Inductive prog (A : Type) :=
 | Ret (a : A)
